@@ -115,7 +115,7 @@ def run(res, tier, seed, driver_ok):
             if cls != 'eq1e-8' and rel(o.getData(), want) > tol:
                 bad('change:%s:%s' % (kind, cls), 'changeFrame is not the adjoint action between the two frames', {'data': list(d), 'A': list(a), 'B': list(b)},
                     {'rel_err': rel(o.getData(), want)})
-            if cls != 'eq1e-8' and rel(o.frame_applied.gTAA(), b) > 1e-8 and np.max(np.abs(o.frame_applied.gTM() - TB)) > 1e-8:
+            if cls != 'eq1e-8' and rel(o.frame_applied.gTAA(), b) > 1e-8 and G.gt(np.max(np.abs(o.frame_applied.gTM() - TB)), 1e-8):
                 bad('frame-not-recorded:%s' % kind, 'object does not record its new frame', {'A': list(a), 'B': list(b)}, o.frame_applied.gTAA().reshape(-1).tolist())
             # --- A -> B -> A
             o2 = mk(d, A); o2.changeFrame(B); o2.changeFrame(A)
@@ -130,7 +130,7 @@ def run(res, tier, seed, driver_ok):
             x = mk(d, A); y = mk(v, B)
             yA = mk(v, B); yA.changeFrame(A)
             sm = x + y
-            if rel(sm.getData(), d.reshape(6, 1) + yA.getData()) > tol or np.max(np.abs(sm.frame_applied.gTM() - TA)) > 1e-8:
+            if rel(sm.getData(), d.reshape(6, 1) + yA.getData()) > tol or G.gt(np.max(np.abs(sm.frame_applied.gTM() - TA)), 1e-8):
                 bad('add-mixed:%s' % kind, 'sum in mixed frames is not the sum in the left frame', {'a': list(d), 'A': list(a), 'b': list(v), 'B': list(b)}, None)
             df = x - y
             if rel(df.getData(), d.reshape(6, 1) - yA.getData()) > tol:
@@ -190,7 +190,7 @@ def run(res, tier, seed, driver_ok):
         lines.append('scr.wrenchat %s %s' % (tmh.H(f), tmh.H(p))); expect.append((W.getData().reshape(-1), None, 'x', 0.0))
         atp = tm(A.gTM() @ Tof(np.concatenate([p, np.zeros(3)])))        # frame at the point of application, same orientation
         W.changeFrame(atp)
-        if np.max(np.abs(W.getMoment())) > tol * max(1.0, np.linalg.norm(f) * max(1.0, np.linalg.norm(p))):
+        if G.gt(np.max(np.abs(W.getMoment())), tol * max(1.0, np.linalg.norm(f) * max(1.0, np.linalg.norm(p)))):
             bad('zero-moment', 'moment about the point of application is not zero', {'f': list(f), 'p': list(p), 'A': list(a)}, W.getMoment().reshape(-1).tolist())
         if n < 2:
             res.sample({'A': list(a), 'B': list(b), 'C': list(c), 'data': list(d), 'class': cls})
